@@ -16,9 +16,30 @@ def run(ctx):
     vlib.conc_component(ctx, "SyncList", "SyncList", "MCSyncList", "MC_quick.cfg", "synclist", ["listz"], SHIM,
                         extra_mc=extra, walk_mode="cover" if quick else "probe", sample_n=400 if quick else 6000, real_n=400 if quick else 8000,
                         hist_budget=120000 if quick else 1500000, explore_budget=3000 if quick else 20000)
+    if not ctx.violations:
+        long_run(ctx, quick)
     ctx.assumptions += ["int elements", "PopWait is driven with maxWait 0 and <0 only (positive durations are wall-clock behaviour)",
                         "data-race freedom is observed by the Go race detector on real goroutines (plain accesses are invisible to the scheduler shim)",
                         "liveness (every Push completes) is checked by TLC on the step-level spec under weak fairness; on the code every sampled fair schedule must terminate"]
+
+def long_run(ctx, quick):
+    """One list driven through very many Push/Pop pairs (thorough: more than 2^32, so that counters of any width the
+    implementation keeps wrap), then observed at rest; the observations are a history judged by FifoHist."""
+    import os, subprocess
+    binp = os.path.join(ctx.bin, "synclist")
+    outd = os.path.join(ctx.out, "SyncList")
+    pairs = str(3000000) if quick else str((1 << 32) + 5)
+    rr = subprocess.run([binp, "long", "-out", outd, "-pairs", pairs], capture_output=True, text=True, env=vlib.GOENV, timeout=7200)
+    if rr.returncode != 0:
+        raise vlib.Inconclusive("long run failed: %s" % rr.stderr[-1500:])
+    st = vlib.read_json(os.path.join(outd, "long_stats.json"))
+    ok, bad, nh, ne = vlib.validate_hist(ctx, "FifoHist", "FifoHist", "Hist.cfg", os.path.join(outd, "long_hist.ndjson"), "SyncList_long")
+    vlib.log("TLC history validation SyncList after %s Push/Pop pairs (%.0fs): %s" % (st["pairs"], st["wall_s"], "accepted" if ok else "REJECTED"))
+    ctx.cov["engines"].append({"engine": "long sequential run", "component": "SyncList", "pairs": st["pairs"], "wall_s": st["wall_s"]})
+    if not ok:
+        ctx.violation("SyncList: after %s Push/Pop pairs the abstract FIFO history spec rejects what the list shows at rest: %s" % (st["pairs"], str(bad)[:300]),
+                      {"component": "SyncListLong", "history": bad, "stats": st, "note": "re-run the check"}, key="SyncList/long")
+
 
 def replay(ctx, rp):
     return vlib.replay_any(ctx, rp)
